@@ -108,7 +108,6 @@ def bound_consistency_algorithm(
             return PROBLEM_INCONSISTENT
         if status == PROP_ENTAILMENT:
             not_entailed_propagators_stack[top, prop_idx] = False
-            statistics[STATS_IDX_PROPAGATOR_ENTAILMENT_NB] += 1
         shr_domains_changes = False
         for var_idx in range(prop_var_end - prop_var_start):
             shr_domain_idx = prop_indices[var_idx]
@@ -136,5 +135,7 @@ def bound_consistency_algorithm(
                     shr_domain_idx,
                     events,
                 )
+        if status == PROP_ENTAILMENT:  # counted once the domains have been written back without inconsistency
+            statistics[STATS_IDX_PROPAGATOR_ENTAILMENT_NB] += 1
         if not shr_domains_changes:
             statistics[STATS_IDX_PROPAGATOR_FILTER_NO_CHANGE_NB] += 1
